@@ -93,6 +93,46 @@ multisets (members of a group too).  GENUINE (fixes_ready/SIB_02): ``repartition
 (bag, size) although its boundaries come from sampled memory estimates that change from call to call — the same call
 twice gives one name with 9 and 11 partitions, ``concat`` of the two loses elements; seen as
 ``repartition:arguments-not-in-name:siblings-share-keys`` (sibling '200B' vs 200), about one case per run.
+
+Parameter audit (second pass).  Every keyword of the named operations is now passed non-default values on data where
+the default gives another result, and the families that the random planners reach too rarely are FORCED in a second
+case stream (``AUDIT_FEATS``: the planner of the operation is re-drawn until the last step has the wanted feature;
+``AUDIT_MODS``: cross-cutting classes), each with its own counter ``aud_*`` (counted only when a result was compared) and floor:
+
+* arguments of ``map`` / ``starmap`` / ``map_partitions`` that are Bags (derived, independent with the same partition
+  lengths, THE SAME bag), Items, Delayed objects, positional and keyword, mixed with constants (a Bag keyword switches
+  ``map_partitions`` from blockwise to hand-built tasks);
+* ``pluck`` with a list key (tuples) without/with ``default=``, falsy defaults (0, None); ``unzip(n)``;
+* ``topk(key=)`` non-callable (also the falsy index 0) and a key function of several arguments; ``split_every=False`` and
+  ``split_every`` above the partition count for every tree reduction; counters for THREE tree levels (``*_three_levels``; with
+  the default split_every=8 that needs > 64 partitions: layout class ``lay:deep`` 65-72 partitions);
+* ``fold(out_type=Bag)``, ``reduction(out_type=Bag)``; ``foldby(combine_initial=)`` over several levels; ``var/std(ddof=2)``;
+  ``accumulate(initial=<falsy>)``; ``take(warn=True)`` with too few elements in the requested partitions;
+* ``groupby`` without ``shuffle=``: the method comes from the configuration (disk / tasks / p2p -> tasks); keys that are
+  None / floats; ``join`` with a lazily evaluated single-partition Bag and a Delayed built by a call;
+* ``zip(b, b)``; constructors ``from_sequence(seq)`` without arguments, sequences of 101-260 elements (from_sequence
+  switches from ceil to floor partition sizes above 100), ``db.range(n, npartitions)`` incl. n < npartitions;
+  13-40 / 65-72 partitions;
+* pre-steps that leave state in front of every operation: ``persist()``, ``from_delayed(to_delayed(optimize_graph=))``,
+  ``repartition``;
+* ``thr:yield``: the threaded scheduler (4 workers) behind a lazily evaluated ``map(yield_ident)`` (a sleep per element
+  hands the GIL over) on 2-6 partitions of several elements each: the per-partition tasks of operations that keep state
+  (counters, heaps, accumulators, spill files) interleave element by element.  A failure that the synchronous scheduler
+  does not show is labelled ``<op>:only-on-threads&gil-yielding-lazy-input:<symptom>``;
+* ``to_dataframe(meta= | columns=, optimize_graph=)`` through the harness' pyarrow import stub, against
+  ``pandas.DataFrame(list(seq), columns=...).astype(meta dtypes)`` (column names, dtype kinds, rows in order; index ignored);
+* ``repartition-grow`` grid (the growing direction of ``repartition(npartitions=)`` and the split step of
+  ``repartition(partition_size=)``): old partition length L in 1..130 (thorough 400) x split factor k in 2..16 x N in
+  {1,2,3} old partitions - the slice positions are ``int(L / k * i)``, whether the last slice reaches the end depends on
+  the pair (L, k).
+Not generated: one-shot iterators as ``join(other)`` (consumed by the first partition: the user's choice, like generator
+partitions), ``reduction(name=)`` (names only), random_sample (C49).
+Calibration of the audit (unchanged tree): no oracle corrections were needed.  GENUINE, patches in /verif/fixes_ready:
+C48_05 ``zip(b, b)`` / ``b.map(f, b)`` / ``b.map_partitions(f, b | q=b)`` of a lazily evaluated bag pair up wrong elements
+(label ``lazify:same-partition-twice-in-one-task:values`` and, same mechanism seen by the sibling facet,
+``{map,map_partitions,zip}:arguments:differs-when-computed-with-sibling``); C48_06 ``db.range(n, npartitions)`` with
+n < npartitions raises (``range:n<npartitions:ValueError@bag/core.py:bag_range``); C48_07 ``reduction/fold(out_type=Bag)``
+shares its layer name with the Item form (``fold:arguments:differs-when-computed-with-sibling``).
 """
 from __future__ import annotations
 
@@ -114,11 +154,16 @@ RULE = ("cases = (forced last operation, case seed); the seed determines element
         "with explicit partition lengths incl. empty first/last/all partitions, up to 12 partitions), a random typed prefix of 0-2 "
         "operations and the parameters of every operation (split_every, keys, binops/initials, groupby shuffle/npartitions/max_branch, "
         "take npartitions, repartition npartitions|partition_size ...); a seeded ~12% run on the threaded scheduler, the rest on sync; "
-        "non-trivial = non-empty input sequence; distinct = distinct (pipeline description, data, layout)")
+        "non-trivial = non-empty input sequence; distinct = distinct (pipeline description, data, layout); "
+        "+ a parameter-audit stream: (operation, wanted feature of its last step) families and cross-cutting classes (persist / to_delayed / "
+        "repartition in front of the operation, threaded scheduler behind a GIL-yielding lazy step, 13-72 partitions, 101-260 elements, "
+        "from_sequence without arguments, db.range), each forced equally often; + complete grids of repartition(npartitions=) over "
+        "(current, requested) counts (shrinking) and over (old partition length, split factor, old partition count) (growing, also "
+        "through partition_size=)")
 ASSUMPTIONS = ["CPython builtins / itertools / functools.reduce / fractions as the reference",
                "dask.delayed builds the partitions the harness wrote",
                "the operator library used in folds is associative with identity initials (checked by construction)"]
-BUDGET = {"quick": 65, "thorough": 600}   # the sibling facet adds ~60 % CPU per case (measured in-process); cap, not target
+BUDGET = {"quick": 110, "thorough": 800}   # cap, not target (the audit stream and the grow grid add ~70 % CPU to the first version)
 # floors: ~45 % of the counts measured on the unchanged tree for the full quick stream (9000 cases, seeds 0-2, 7, 12345);
 # the thorough stream is 150000 cases of the same mixture (x16.7), floored at x15 of the quick floors
 _QUICK_COUNTERS = {
@@ -142,12 +187,42 @@ FLOORS["thorough"]["counters"]["op_repartition_grid"] = 1400
 # quick floor x (thorough / quick stream size) x 0.6.  A run in which the facet never executed is INCONCLUSIVE.
 FLOORS["quick"]["counters"].update({"siblings_built": 3800, "siblings_computed_together": 540, "siblings_with_different_values": 355})
 FLOORS["thorough"]["counters"].update({"siblings_built": 36000, "siblings_computed_together": 5100, "siblings_with_different_values": 3400})
-EXHAUSTIVE_SPACE = None
+# parameter audit: ~45 % of the smallest count of the five quick seeds (0, 1, 2, 7, 12345) measured with fixes_ready/C48_05-07
+# applied; thorough = quick floor x 13 (the audit stream is x15), the repartition-grow grids x3 (L up to 400 instead of 130)
+_AUDIT_COUNTERS = {
+    "all_multi_level": 29, "all_three_levels": 12, "any_multi_level": 28, "any_three_levels": 11, "aud_accumulate_initial_falsy": 39,
+    "aud_count_split_every_False": 26, "aud_default_split_three_levels": 18, "aud_fold_out_type_Bag": 44, "aud_fold_split_every_False": 36,
+    "aud_foldby_combine_initial": 107, "aud_foldby_split_every_False": 40, "aud_frequencies_split_every_False": 37, "aud_groupby_key_None_float": 25,
+    "aud_groupby_shuffle_config_disk": 28, "aud_groupby_shuffle_config_p2p": 30, "aud_groupby_shuffle_config_tasks": 29, "aud_join_on_other": 87,
+    "aud_join_other_bag1_lazy": 27, "aud_join_other_delayed_call": 28, "aud_lay_bigseq": 67, "aud_lay_deep": 63, "aud_lay_fs": 64,
+    "aud_lay_many": 65, "aud_lay_range": 63, "aud_map_delayed_arg": 17, "aud_map_delayed_kwarg": 17, "aud_map_independent_bag_arg": 19,
+    "aud_map_mixed_args": 18, "aud_map_partitions_bag_arg": 19, "aud_map_partitions_bag_kwarg": 22, "aud_map_partitions_delayed_arg": 19,
+    "aud_map_partitions_delayed_kwarg": 18, "aud_map_partitions_item_arg": 19, "aud_map_partitions_same_bag_arg": 18,
+    "aud_map_partitions_same_bag_kwarg": 18, "aud_map_same_bag_arg": 18, "aud_map_same_bag_kwarg": 17, "aud_pluck_default_falsy": 19,
+    "aud_pluck_key_list": 38, "aud_pre_persist": 164, "aud_pre_repartition": 63, "aud_pre_to_delayed": 157, "aud_reduction_out_type_Bag": 41,
+    "aud_reduction_split_every_False": 34, "aud_starmap_delayed_kwarg": 22, "aud_starmap_item_kwarg": 23, "aud_std_ddof_2": 25, "aud_take_warn": 103,
+    "aud_take_warn_short": 46, "aud_thr_yield": 133, "aud_thr_yield_several_nonempty_partitions": 133, "aud_to_dataframe_columns": 36,
+    "aud_to_dataframe_meta_float": 32, "aud_to_dataframe_optimize_graph_False": 50, "aud_topk_key_multi_arg": 22, "aud_topk_key_non_callable": 58,
+    "aud_topk_split_every_False": 40, "aud_unzip_any": 106, "aud_var_ddof_1": 46, "aud_var_ddof_2": 28, "aud_zip_same_bag_arg": 29,
+    "count_multi_level": 32, "count_three_levels": 10, "distinct_multi_level": 38, "distinct_three_levels": 3, "fold_three_levels": 23,
+    "foldby_combine_initial_multi_level": 29, "foldby_three_levels": 18, "frequencies_three_levels": 23, "max_multi_level": 30,
+    "max_three_levels": 10, "min_multi_level": 29, "min_three_levels": 11, "op_persist": 278, "op_repartition_grow_grid": 2632,
+    "op_repartition_size_split_grid": 877, "op_to_dataframe": 138, "op_to_delayed": 274, "op_unzip": 106, "reduction_three_levels": 17,
+    "repartition_size_split_exactly_k_ways": 875, "sum_multi_level": 31, "sum_three_levels": 10, "topk_three_levels": 22,
+}
+_GRIDS = ("op_repartition_grow_grid", "op_repartition_size_split_grid", "repartition_size_split_exactly_k_ways")
+FLOORS["quick"]["counters"].update(_AUDIT_COUNTERS)
+FLOORS["thorough"]["counters"].update({k: v * (3 if k in _GRIDS else 13) for k, v in _AUDIT_COUNTERS.items()})
+FLOORS["quick"].update(evaluations=9000, distinct_nontrivial=8500)
+FLOORS["thorough"].update(evaluations=100000, distinct_nontrivial=90000)
+EXHAUSTIVE_SPACE = None      # the repartition grids are complete over their (small) index ranges but are not the property's space
 LEVEL_NOTE = ("trusts CPython's builtins/itertools/functools/fractions as reference and the harness' own multiset comparison; "
               "operators given to fold/foldby/reduction are associative with identity initials by construction")
 CLAIM = ("Every generated bag pipeline (1-3 operations from the statement's list, each family forced equally often as the last "
          "step, on ints/strings/tuples/dicts, all three bag constructors, empty partitions in every position, split_every forcing "
-         "multi-level reductions, task/disk groupby incl. multi-stage task shuffles) was computed by the real dask.bag and compared "
+         "multi-level reductions, task/disk groupby incl. multi-stage task shuffles; every keyword of every operation with non-default "
+         "values; Bag/Item/Delayed arguments; persist/to_delayed/repartition pre-steps; threaded runs behind GIL-yielding lazy steps; "
+         "up to 72 partitions and 260 elements; repartition over complete grids of partition counts and partition lengths) was computed by the real dask.bag and compared "
          "with an independent plain-Python evaluation of the same pipeline on the concatenated sequence; order-insensitively only "
          "where bags promise no order. Held means: no counterexample among the executions observed, except the recorded findings.")
 TECHNIQUE = "runtime monitoring: differential oracle (plain-Python reference pipeline) on computed results, with step isolation + greedy witness shrinking for labels"
@@ -1000,7 +1075,9 @@ ACCS = {"I": [("add", operator.add, 0, 10), ("mul", operator.mul, 1, 2), ("max",
 def plan_accumulate(rng, st):
     if not st.ordered or st.kind not in ACCS:
         raise NotApplicable
-    name, binop, _, ini = rng.choice(ACCS[st.kind])
+    name, binop, ident_, ini = rng.choice(ACCS[st.kind])
+    if rng.random() < 0.3:
+        ini = ident_        # a falsy initial (0, "", (), []) is a value like any other and is emitted first
     if rng.random() < 0.5:
         def ref(s):
             out = list(itertools.accumulate(s.seq, binop))
@@ -1009,7 +1086,8 @@ def plan_accumulate(rng, st):
             return St(_acc_kind(s.kind), G.split_by_lens(out, [len(p) for p in s.parts]), None, True)
         return Step("accumulate", "accumulate(%s)" % name, lambda b, s: b.accumulate(binop), ref, ["no-initial"])
     return Step("accumulate", "accumulate(%s,initial=%r)" % (name, ini), lambda b, s: b.accumulate(binop, initial=ini),
-                lambda s: St(_acc_kind(s.kind), None, list(itertools.accumulate(s.seq, binop, initial=ini)), True), ["initial"])
+                lambda s: St(_acc_kind(s.kind), None, list(itertools.accumulate(s.seq, binop, initial=ini)), True),
+                ["initial"] + (["initial=falsy"] if not ini else []))
 
 
 def _acc_kind(kind):
@@ -1267,7 +1345,7 @@ AUDIT_FEATS = [
     ("groupby", "shuffle=config:disk", None), ("groupby", "shuffle=config:tasks", None), ("groupby", "shuffle=config:p2p", None),
     ("groupby", "key=None/float", ("I",)),
     ("join", "other=bag1-lazy", None), ("join", "other=delayed-call", None), ("join", "on_other", None),
-    ("take", "warn&short", None), ("take", "warn", None), ("zip", "same-bag-arg", None),
+    ("accumulate", "initial=falsy", ("I", "S", "P", "T")), ("take", "warn&short", None), ("take", "warn", None), ("zip", "same-bag-arg", None),
     ("var", "ddof=2", ("I",)), ("std", "ddof=2", ("I",)), ("var", "ddof=1", ("I",)),
     ("to_dataframe", "columns", ("P", "T", "D")), ("to_dataframe", "meta-float", ("P", "T", "D")), ("to_dataframe", "optimize_graph=False", ("P", "T", "D")),
 ]
@@ -1279,6 +1357,11 @@ MOD_OPS = ("distinct", "frequencies", "topk", "fold", "reduction", "foldby", "gr
            "starmap", "std", "remove")
 
 
+# operations whose tasks keep state while they consume a partition (counters, heaps, accumulators, spill files ...)
+THR_OPS = ("distinct", "frequencies", "topk", "fold", "reduction", "foldby", "groupby", "accumulate", "take", "count", "sum", "mean", "var",
+           "join", "product", "zip", "repartition", "flatten", "max")
+
+
 def _slug(text):
     return "".join(ch if ch.isalnum() else "_" for ch in text)
 
@@ -1288,6 +1371,15 @@ def cases(tier, seed):
     n = 9000 if tier == "quick" else 150000
     for i in range(n):
         yield {"op": FORCED[i % len(FORCED)], "cs": rng.randrange(2 ** 31)}
+    # the GROWING direction: every old partition of length L is split k ways by slicing at float positions
+    # int(L / k * i); whether the last slice reaches the end depends on the pair (L, k), so the pairs are a grid:
+    # L x k x (number of old partitions N); and repartition(partition_size=) with a size that forces a k-way split
+    topL = 130 if tier == "quick" else 400
+    for L in range(1, topL + 1):
+        for k in range(2, 17):
+            for N in (1, 2, 3):
+                yield {"op": "repartition-grow", "L": L, "k": k, "N": N, "how": "npartitions"}
+            yield {"op": "repartition-grow", "L": L, "k": k, "N": 1 + (L + k) % 2, "how": "partition_size"}
     # parameter-audit stream (see AUDIT_FEATS / AUDIT_MODS)
     na = (36 if tier == "quick" else 540)
     for j in range(na):
@@ -1296,7 +1388,8 @@ def cases(tier, seed):
     nm = (150 if tier == "quick" else 2250)
     for j in range(nm):
         for k, mod in enumerate(AUDIT_MODS):
-            yield {"op": MOD_OPS[(j * len(AUDIT_MODS) + k) % len(MOD_OPS)], "mod": mod, "cs": rng.randrange(2 ** 31)}
+            ops = THR_OPS if mod == "thr:yield" else MOD_OPS
+            yield {"op": ops[(j * (2 if mod == "thr:yield" else 1) + k) % len(ops)], "mod": mod, "cs": rng.randrange(2 ** 31)}
     # repartition(npartitions=) over a grid of (current, requested) partition counts: the new boundaries come from
     # floating-point arithmetic on the two counts, so many pairs have to be seen, not a handful of small ones
     top = 34 if tier == "quick" else 130
@@ -1810,10 +1903,64 @@ def _run_repartition_grid(case, ctx):
             compute=S.compute_blocks, compute_many=S.compute_many_blocks, describe={"npartitions": m2})
 
 
+def _run_repartition_grow(case, ctx):
+    """``from_sequence(range(N*L), partition_size=L)`` (N partitions of L elements) repartitioned to N*k partitions, or by
+    a ``partition_size=`` that makes every partition too large by the factor k: the elements must all still be there,
+    in order; the partitions must concatenate to the bag and be as many as declared."""
+    import dask
+    import dask.bag as db
+    from dask.sizeof import sizeof
+
+    L, k, N, how = case["L"], case["k"], case["N"], case["how"]
+    ctx.op("repartition-grow:" + how)
+    seq = list(range(N * L))
+    b = db.from_sequence(seq, partition_size=L)
+    if b.npartitions != N:
+        ctx.reject("from_sequence gave %d partitions, wanted %d" % (b.npartitions, N))
+        return
+    ctx.sig = ("repartition-grow", how, L, k, N)
+    ctx.nontrivial = L > 1
+    if how == "npartitions":
+        ctx.count("op_repartition_grow_grid")
+        feat, arg = "npartitions&grow", {"npartitions": N * k}
+    else:
+        # 1 + mem // size == k  <=>  mem / k < size <= mem / (k - 1)
+        mem = sizeof(seq[:L])
+        size = max(1, mem // (k - 1))
+        if 1 + mem // size < 2:
+            ctx.reject("no partition_size splits a partition of %d bytes %d ways" % (mem, k))
+            return
+        ctx.count("op_repartition_size_split_grid")
+        if 1 + mem // size == k:
+            ctx.count("repartition_size_split_exactly_k_ways")
+        feat, arg = "partition_size&split", {"partition_size": size}
+    try:
+        with dask.config.set(scheduler="sync"):      # repartition(partition_size=) computes the partition sizes itself
+            r = b.repartition(**arg)
+            got = r.compute()
+            parts = G.parts_of(r) if (L + k + N) % 4 == 0 else None
+    except Exception as ex:  # noqa: BLE001
+        ctx.exception(ex, prefix="repartition:%s" % feat)
+        return
+    if got != seq:
+        missing = len(seq) - len(got)
+        ctx.violation("repartition:%s:%s" % (feat, "elements-lost" if missing > 0 else "values"),
+                      "repartition(%s) of %d partitions of %d elements: %d elements in, %d out" % (arg, N, L, len(seq), len(got)), L=L, k=k, N=N)
+    elif parts is not None and [x for p_ in parts for x in p_] != seq:
+        ctx.violation("repartition:%s:partitions" % feat, "partitions do not concatenate to the bag", L=L, k=k, N=N)
+    elif parts is not None and r.npartitions != len(parts):
+        ctx.violation("repartition:%s:npartitions" % feat, "declares %d partitions, %d computed" % (r.npartitions, len(parts)), L=L, k=k, N=N)
+    elif how == "npartitions" and r.npartitions != N * k:
+        ctx.count("repartition_grow_other_partition_count")     # observation only: the statement is about the elements
+    ctx.sample = {"old_partitions": N, "length": L, "arg": arg, "new_partitions": r.npartitions}
+
+
 def run_case(case, ctx):
     forced = case["op"]
     if forced == "repartition-grid":
         return _run_repartition_grid(case, ctx)
+    if forced == "repartition-grow":
+        return _run_repartition_grow(case, ctx)
     _ensure_dd()
     rng = random.Random(case["cs"])
     want, mod = case.get("want"), case.get("mod")
@@ -1840,6 +1987,15 @@ def run_case(case, ctx):
         elif mod == "lay:range":
             L = list(range(rng.choice((0, 1, 2, 3, 5, 7, 10, 12, 24, 31, 40))))
             layout = {"style": "range", "n": rng.choice((1, 2, 3, 4, 5, 7, 12))}
+        elif mod == "thr:yield":
+            # several partitions of several elements each, so that the tasks of different threads really overlap
+            n = rng.randint(12, 40)
+            pool = [G.gen_elem(rng, kind) for _ in range(rng.randint(2, 4))] if rng.random() < 0.3 else None
+            L = [(dict(x) if isinstance(x, dict) else x) for x in ((rng.choice(pool) if pool else G.gen_elem(rng, kind)) for _ in range(n))]
+            nparts = rng.choice((2, 3, 4, 6))
+            cuts = sorted(rng.sample(range(1, n // 2), nparts - 1))
+            b_ = [0] + [2 * c for c in cuts] + [n]
+            layout = {"style": "delayed", "lens": [c - a for a, c in zip(b_, b_[1:])], "how": "call"}
         else:
             L = G.gen_seq(rng, kind, 40)
             if mod == "lay:many":
@@ -1912,30 +2068,36 @@ def run_case(case, ctx):
             ctx.count("foldby_combine_initial_multi_level")
     if sched in ("threads", "threads4"):
         ctx.count("threads_runs")
+    # audit families: counted only when the real call produced a result that was compared (an operation that refuses a
+    # parameter class - NotImplementedError - must not fill the floor of that class)
+    aud = []
     lastf = steps[-1].features(states[-1].nparts)
     for f in lastf:
         if (forced, f) in _AUDIT_KEYS:
-            ctx.count("aud_%s_%s" % (forced, _slug(f)))
+            aud.append("aud_%s_%s" % (forced, _slug(f)))
     if forced == "unzip":
-        ctx.count("aud_unzip_any")
+        aud.append("aud_unzip_any")
     if len(steps) > 1 and steps[-2].name in ("persist", "to_delayed"):
-        ctx.count("aud_pre_" + steps[-2].name)
+        aud.append("aud_pre_" + steps[-2].name)
     if len(steps) > 1 and steps[-2].name == "repartition" and mod == "pre:repartition":
-        ctx.count("aud_pre_repartition")
+        aud.append("aud_pre_repartition")
     if sched == "threads4" and len(steps) > 1 and "gil-yield" in steps[-2].feats:
-        ctx.count("aud_thr_yield")
+        aud.append("aud_thr_yield")
         if len(parts) > 1 and sum(1 for p_ in parts if p_) > 1:
-            ctx.count("aud_thr_yield_several_nonempty_partitions")
+            aud.append("aud_thr_yield_several_nonempty_partitions")
     if mod and mod.startswith("lay:"):
-        ctx.count("aud_" + _slug(mod))
+        aud.append("aud_" + _slug(mod))
         if mod == "lay:deep" and "three-levels" in lastf:
-            ctx.count("aud_default_split_three_levels")
+            aud.append("aud_default_split_three_levels")
 
     sym, tag, val = _symptom(steps, states, bag, fin, sched)
     if tag == "unsupported":
         ctx.unsupported(val)
         return
     ctx.count("results_compared" if tag == "ok" else "exceptions_seen")
+    if tag == "ok":
+        for name in aud:
+            ctx.count(name)
     ctx.sample = {"pipeline": desc, "kind": kind, "lens": [len(p) for p in parts], "layout": layout["style"], "scheduler": sched,
                   "input": L[:8], "result": G.canon(val)[:160] if tag == "ok" else repr(val)[:160],
                   "compare": fin.mode}
@@ -2023,6 +2185,6 @@ def _ctor_feats(L, layout):
     f = []
     if layout["style"] in ("range", "np") and len(L) < layout["n"]:
         f.append("n<npartitions")
-    if not L:
+    if not L and not f:
         f.append("empty-sequence")
     return f
